@@ -195,10 +195,12 @@ static Obs observe(Inst& in) {
 #endif
 #if HAS_PLANS
 	{
-		bool c1 = true, c2 = true;
+		bool c1 = true, c2 = true, c3 = true;
 		o.plan = readPlan(m.plan(), &c1);                 // CPlan
 		const PlanVec p2 = readPlan(in.obj->plan(), &c2); // Plan
-		o.planConsistent = c1 && c2 && samePlan(o.plan, p2);
+		const auto constHandle = in.obj->plan();          // const Plan: iterates with its own iterator type
+		const PlanVec p3 = readPlan(constHandle, &c3);
+		o.planConsistent = c1 && c2 && c3 && samePlan(o.plan, p2) && samePlan(o.plan, p3);
 	}
 #endif
 #if HAS_HISTORY
@@ -243,7 +245,8 @@ static void checkObs(Inst& in, const char* where) {
 		if (!ok) {
 			const std::string msg = fmt("after %s previousTransition() is %s, the transition applied was %s (active %d); %s", where, o.prev.str().c_str(), in.prevExpected.str().c_str(), o.active, w.tail().c_str());
 			w.V("C11", fmt("previousTransition!=applied|%s", !in.prevExpected.valid ? "should-be-empty" : (!o.prev.valid ? "empty" : (o.prev.dest != in.prevExpected.dest ? "destination" : o.prev.origin != in.prevExpected.origin ? "origin" : "payload"))), msg);
-			if (o.prev.valid && in.prevExpected.valid && o.prev.dest == in.prevExpected.dest && o.prev.origin == in.prevExpected.origin) w.V("C07", "payload-in-previousTransition", msg);
+			// the payload of one request is never shown for another, a payload-free request exposes none (tags are unique per request)
+			if (o.prev.valid && in.prevExpected.valid && (o.prev.hasPay != in.prevExpected.hasPay || (o.prev.hasPay && o.prev.tag != in.prevExpected.tag))) w.V("C07", "payload-in-previousTransition", msg);
 		}
 		if (o.prev.valid && o.active >= 0 && o.prev.dest != o.active && !in.prevLenientEmptyOk)
 			w.V("C11", "previousTransition-destination-not-active", fmt("after %s previousTransition().destination=%u but the active state is %d; %s", where, o.prev.dest, o.active, w.tail().c_str()));
@@ -840,6 +843,42 @@ struct Case {
 		opDestroy(3);
 	}
 
+	// the machine is moved to another address and back (move construction; the object moved from is destroyed each
+	// time): the history simply continues on the new object, so every monitor keeps its expectations
+	void relocate() {
+#if CFG_CTX != 2   // (a machine holding a reference context is not move-constructible)
+		Inst& a = A();
+		Inst& c = Cp();
+		if (c.alive || !a.alive) return;
+		for (int leg = 0; leg < 2; ++leg) {
+			Inst& from = leg == 0 ? a : c;
+			Inst& to = leg == 0 ? c : a;
+			const unsigned toSlot = leg == 0 ? 3 : 0;
+			const bool hadLogger = from.loggerAttached;
+			to = from;
+			to.slot = static_cast<uint8_t>(toSlot);
+			prefill(toSlot, w.caseNo + 2000 + leg);
+			to.obj = reinterpret_cast<Instance*>(g_store[toSlot]);
+			const size_t e0 = w.events.size();
+			w.apiBegin(to, OP_MOVE);
+			LIB(new (g_store[toSlot]) Instance(static_cast<Instance&&>(*from.obj)));
+			w.apiEnd(to);
+			to.alive = true;
+			for (size_t i = e0; i < w.events.size(); ++i)
+				if (w.events[i].kind == EV_SUB) { w.V("C01", "move-construction-ran-callbacks", fmt("move construction delivered %s", evStr(w.events[i]).c_str())); break; }
+#if HAS_LOG
+			if (hadLogger) opAttach(to, true);   // the logger object of the new slot
+#endif
+			checkObs(to, "move construction");
+			// the object moved from is a machine of its own now; it is destroyed at once (an automatically activated one exits)
+			from.policy = POL_PASSIVE;
+			opDestroy(from.slot);
+			to.policy = POL_CHOOSER;
+			w.stats.add("move_constructions");
+		}
+#endif
+	}
+
 	// ------------------------------------------------------------------
 	void run(unsigned maxOps) {
 		// logger attachment is decided by the aux stream so that the main decision stream is the
@@ -866,7 +905,7 @@ struct Case {
 			const OpDesc d = pickOp();
 			switch (d.op) {
 			case OP_SAVE: saveLoad(); break;
-			case OP_COPY: copyCheck(); break;
+			case OP_COPY: if (CFG_CTX != 2 && w.ch.chance(1, 3)) relocate(); else copyCheck(); break;
 #if CFG_MANUAL
 			case OP_ENTER: opEnter(a); replicaFollowActivation(); break;
 			case OP_EXIT:
